@@ -8,6 +8,7 @@ EXPLANATION = (
     "(the Plan variants for which plan_introspection::plan_contains_write returns true), and must recurse (call query_contains_write) in every arm "
     "where the planner recurses into a nested query; its wildcard arm may cover only read-only variants. Row / value / error-category parity between "
     "the two APIs is runtime behaviour and is not decided."
+    " C34.2: in the C API's read path every value pushed into an outgoing row is dominated by the Ok arm of Value::reify / Row::reify."
 )
 
 CL = "nervusdb_query::ast::Clause"
